@@ -306,11 +306,163 @@ def run_geometry(rep, facts):
     rep.floor("R3.10", "geometry obligations", total, 13)
 
 
+# ---- R3.11: arithmetic / slicing safety of the framing code ---------------------------------------------------
+def _contracts():
+    import regions as R
+
+    def c_write(it, st, args, dty):
+        # std::io::Write::write: Ok(n) implies n <= buf.len() (trait contract); for `&mut [u8]` also n <= dest.len()
+        n = it.new_len("written", st["ctx"])
+        for a in args[:2]:
+            L = it.slice_len(a, st["ctx"])
+            if L is not None:
+                st["ctx"].add(L - n)
+        return ('ok', n)
+
+    def c_nv_new(it, st, args, dty):
+        L = it.slice_len(args[0], st["ctx"])
+        return ('nvit', L) if L is not None else it.opaque()
+
+    def c_nv_inner(it, st, args, dty):
+        # NVIter only ever replaces its slice by the remainder of a split of itself (C16 R16.1 / R16.2)
+        n = it.new_len("rest", st["ctx"])
+        if isinstance(args[0], tuple) and args[0][0] == 'nvit':
+            st["ctx"].add(args[0][1] - n)
+        return ('slice', n)
+
+    def c_parse_stream(it, st, args, dty):
+        # verified below: ParamsStateInner::parse_stream returns at most data.len()
+        n = it.new_len("consumed", st["ctx"])
+        L = it.slice_len(args[1], st["ctx"])
+        if L is not None:
+            st["ctx"].add(L - n)
+        return n
+
+    def c_parse_buffered(it, st, args, dty):
+        # verified below: ParamsStateInner::parse_buffered returns a slice no longer than data
+        n = it.new_len("unparsed", st["ctx"])
+        L = it.slice_len(args[1], st["ctx"])
+        if L is not None:
+            st["ctx"].add(L - n)
+        return ('slice', n)
+
+    def c_replace_with(it, st, args, dty):
+        # the closure returns State::drive's remainder, a `&'a mut [u8]` reborrowed from `&mut self.input[..input_len]`
+        # (the only `'a` source in scope): it cannot be longer than that slice
+        n = it.new_len("rem", st["ctx"])
+        il = st["heap"].get("input_len")
+        if isinstance(il, R.Lin):
+            st["ctx"].add(il - n)
+        return ('slice', n)
+
+    def c_havoc_self(it, st, args, dty):
+        # verified below as separate entries: parse_payload / parse_head keep the cursor invariant; nothing else is assumed about them
+        syms = ["%s@%d" % (f, next(it.fresh)) for f in it.cursors]
+        it.chain(st["ctx"], syms)
+        st["heap"] = {f: R.Lin.sym(x) for f, x in zip(it.cursors, syms)}
+        st["regions"] = {}
+        return it.opaque()
+
+    return {
+        SP + "::parse_payload": c_havoc_self,
+        SP + "::parse_head": c_havoc_self,
+        "std::io::impls::write": c_write,
+        "protocol::nv::NVIter::new": c_nv_new,
+        "protocol::nv::NVIter::into_inner": c_nv_inner,
+        "parser::request::ParamsStateInner::parse_stream": c_parse_stream,
+        "parser::request::ParamsStateInner::parse_buffered": c_parse_buffered,
+        "replace_with::replace_with_and_return": c_replace_with,
+    }
+
+
+ARITH_KINDS = ("sub", "add", "cast", "slice", "split", "index", "copy", "clobber", "inv", "escape", "loop")
+
+
+def run_arith(rep, facts):
+    import re
+    import regions as R
+    rep.rule("R3.11", "arithmetic and slicing safety of the framing code (E8): in stream::Parser::parse (+ parse_payload, parse_head), "
+                      "request::Parser::parse (+ move_input) and the SkipState / GetValuesState / ParamsState / HeaderState drives, on every path every "
+                      "subtraction is non-negative, every u8/u16 addition and every narrowing `as` cast stays in range, every slice, split_at and "
+                      "copy_within is inside its slice and every indexed access in bounds, derived from the types' ranges, the path condition and (stream "
+                      "parser) the cursor invariant, which is re-established at the loop head and at every return; assumed callee contracts are listed "
+                      "in the evidence, the crate-local ones are themselves verified")
+    RQ = "parser::request::"
+    contracts = _contracts()
+    Lin = R.Lin
+    table = [
+        # (label, body, cursors, len_of, inline, armed kinds or None for all, self by struct)
+        ("stream::parse", SP + "::parse", CURSORS, "buffer", {SP + "::is_record_boundary"}, None),
+        ("stream::parse_payload", SP + "::parse_payload", CURSORS, "buffer", {SP + "::is_record_boundary"}, None),
+        ("stream::parse_head", SP + "::parse_head", CURSORS, "buffer", {SP + "::is_record_boundary"}, None),
+        ("request::parse", RP + "::parse", ["input_len"], "input", {RP + "::move_input"}, None),
+        ("SkipState::drive", RQ + "SkipState::drive", [], None, set(), None),
+        ("GetValuesState::drive", RQ + "GetValuesState::drive", [], None, set(), None),
+        ("ParamsState::drive", RQ + "ParamsState::drive", [], None, set(), None),
+        ("HeaderState::drive", RQ + "HeaderState::drive", [], None, set(), None),
+        ("parse_stream", RQ + "ParamsStateInner::parse_stream", [], None, set(), None),
+        ("parse_buffered", RQ + "ParamsStateInner::parse_buffered", [], None, set(), ("post",)),
+    ]
+    total = 0
+    used = {}
+    for (label, name, cursors, lenf, inline, armed) in table:
+        b = facts.body(name)
+        it = R.Interp(facts, cursors, len_of=lenf, inline=inline, contracts={k: v for k, v in contracts.items() if k != name})
+        ends = it.run(b)
+        for k, v in it.stats["contract_uses"].items():
+            used[k] = used.get(k, 0) + v
+        # postconditions
+        post_bad = []
+        for e in ends:
+            if cursors and not it.chain_holds(e.ctx, e.heap):
+                post_bad.append(("the cursor invariant does not hold on return", e.trace))
+            if label == "parse_stream":
+                L = it.slice_len(it.arg_env[2], e.ctx)
+                if not (isinstance(e.ret, Lin) and e.ctx.le(e.ret, L)):
+                    post_bad.append(("the consumed count returned may exceed data.len()", e.trace))
+            if label == "parse_buffered":
+                L = it.slice_len(it.arg_env[2], e.ctx)
+                Lr = it.slice_len(e.ret, e.ctx) if e.ret is not None else None
+                if Lr is None or not e.ctx.le(Lr, L):
+                    post_bad.append(("the returned remainder may be longer than data", e.trace))
+        groups = {}
+        for o in it.obligations:
+            if armed is not None and o.kind not in armed:
+                continue
+            txt = re.sub(r"[#@]\d+", "", o.text)
+            groups.setdefault((o.kind, txt), []).append(o)
+        bykind = {}
+        for (kind, txt), os in sorted(groups.items()):
+            ok = all(o.ok for o in os)
+            bykind.setdefault(kind, [0, 0])
+            bykind[kind][0] += 1
+            total += 1
+            if not ok:
+                bykind[kind][1] += 1
+                badp = next(o for o in os if not o.ok)
+                rep.violation("R3.11", "%s/%s[%s]" % (label, kind, txt[:90]), "not derivable on some path: %s" % txt, badp.loc, path=badp.path[-10:])
+        if post_bad:
+            rep.violation("R3.11", "%s/postcondition" % label, post_bad[0][0], b.loc(), path=post_bad[0][1][-10:])
+        if not ends:
+            rep.undecidable("R3.11", "%s/paths" % label, "no return path interpreted", b.loc())
+            continue
+        if not post_bad and not any(v[1] for v in bykind.values()):
+            rep.ok("R3.11", label, "%d path(s); obligations discharged: %s%s" % (
+                len(ends), ", ".join("%d %s" % (v[0], k) for k, v in sorted(bykind.items())) or "none",
+                "; invariant / postcondition holds at every return" if (cursors or armed) or label == "parse_stream" else ""), b.loc())
+        rep.stats.setdefault("geometry", {})[label] = {"paths": len(ends), "obligations": {k: v[0] for k, v in bykind.items()},
+                                                       "loop_heads": it.stats["loop_heads"], "inlined_calls": it.stats["inlined"]}
+    rep.stats.setdefault("geometry", {})["assumed_contracts_used"] = used
+    rep.note("R3.11 callee contracts used (count): %s; write / NVIter / replace_with are assumptions with the stated reasons, parse_stream / parse_buffered are verified as postconditions" % used)
+    rep.floor("R3.11", "arithmetic / slicing obligations", total, 60)
+
+
 def main(rep, tier):
     f = F.load(("async", "http"))
     rep.configs.append({"features": "async,http", "profile": "debug", "bodies": len(f.bodies)})
     check.guard(rep, "R3", run, f)
     check.guard(rep, "R3.10", run_geometry, f)
+    check.guard(rep, "R3.11", run_arith, f)
     rep.floor("R3", "rule instances", len([i for i in rep.instances if i["status"] == "ok"]), 25)
     return rep.finish(
         "Structural clauses of the statement: sticky final states, clear-then-drive on every call, panic containment, side-effect-free "
